@@ -589,9 +589,34 @@ def has_empty_polygon_group_before(case):
     return False
 
 
-def c06_key(case, mode):
+def first_polygon_group_empty(case):
+    for g in case['groups']:
+        if g['et'] == 0:
+            return all(len(p) == 0 for p in g['paths'])
+    return False
+
+
+def reversed_input(case):
+    """the polygon paths of the case are given in the reversed (negative outer) orientation"""
+    if 'orient' in case:
+        return case['orient'] < 0
+    big = [p for g in case['groups'] if g['et'] == 0 for p in g['paths'] if len(p) >= 3]
+    return bool(big) and area2(max(big, key=lambda p: abs(area2(p)))) < 0
+
+
+def empty_group_key(case):
+    """the two failure modes caused by an EndType::Polygon group that has no lowest path (all its paths empty)"""
+    if first_polygon_group_empty(case) and reversed_input(case) and any(g['et'] == 0 and any(p for p in g['paths']) for g in case['groups']):
+        return 'offset.orientation-lost.empty-polygon-group-first'
     if has_empty_polygon_group_before(case) and case['delta'] < 0:
         return 'offset.delta-abs-leak.empty-polygon-group'
+    return None
+
+
+def c06_key(case, mode):
+    k = empty_group_key(case)
+    if k:
+        return k
     jt = case['groups'][0]['jt']
     d = case['delta']
     reg = 'identity' if abs(d) < 0.5 else ('inflate' if d > 0 else 'shrink')
@@ -758,8 +783,9 @@ def locality_key(case, diffs):
     for gi, g in enumerate(case['groups']):
         if g['et'] == 1 and joined_leak_shape(g['paths']):
             return 'offset.endtype-leak.joined-2pt-then-longer'
-    if has_empty_polygon_group_before(case) and case['delta'] < 0:
-        return 'offset.delta-abs-leak.empty-polygon-group'
+    k = empty_group_key(case)
+    if k:
+        return k
     ets = sorted(set(ET[g['et']].lower() for g in case['groups']))
     return 'offset.alone-vs-together.' + '+'.join(ets)
 
@@ -789,11 +815,36 @@ def locality_eval(ctx, T, cases, label, pid_kind, key_of=None):
         else:
             alone.setdefault(ci, []).append((u, r))
     nbad = 0
+    diffs = []
     for ci, c in enumerate(cases):
         ctx.count('evaluations', 1)
         exp = canon([p for _, r in alone.get(ci, []) for p in r['sol']])
         got = canon(tog[ci]['sol'])
         if exp != got:
+            diffs.append((ci, exp, got))
+    # The clean-up union rounds an intersection point into the current scanbeam, and the scanbeams depend on the
+    # y coordinates of every path in the call, so distant paths can move a vertex of the result by one unit.
+    # Such differences are inside the +-2 units the property allows: a difference counts only when the two regions
+    # disagree at a point farther than 2 units from the boundary of the alone-result.
+    if diffs:
+        rs = ctx.rng.fork(4242)
+        olines = []
+        for ci, exp, got in diffs:
+            pts = dedup(samples_output(rs, [list(p) for p in exp], 400) + samples_output(rs, [list(p) for p in got], 400))
+            if not pts:
+                pts = [(0, 0)]
+            P = fmt_pts(pts)
+            E = vf.fmt_paths(dbl_paths(exp)); G = vf.fmt_paths(dbl_paths(got))
+            olines += ['WN %s %s' % (E, P), 'WN %s %s' % (G, P), 'FAR 4 1 1 %s %s' % (E, P), 'FAR 4 1 1 %s %s' % (G, P)]
+        oo = T.O(olines)
+        for k, (ci, exp, got) in enumerate(diffs):
+            c = cases[ci]
+            wa, wb, fa, fb = (oo[4 * k + i].split() for i in range(4))
+            gross = any(x != y and (f == '1' or g == '1') for x, y, f, g in zip(wa, wb, fa, fb)) or (not exp) != (not got)
+            if not gross:
+                ctx.count('locality_rounding_only_differences', 1)
+                ctx.sample(dict(kind=pid_kind, case=c, note='differs from alone by sweep rounding only'), limit=2, key='rounding_only_samples')
+                continue
             nbad += 1
             missing = [list(p) for p in exp if p not in got][:3]
             extra = [list(p) for p in got if p not in exp][:3]
